@@ -1,11 +1,1109 @@
-//! C15 — not implemented yet (stub).
-use crate::engine::Ctx;
+//! C15 — every shipped parameter record loads and yields a physically usable model.
+//!
+//! Finite domain, enumerated exhaustively (seed independent): one `File` case per JSON file
+//! under parameters/{pcsaft,epcsaft,saftvrmie,saftvrqmie,ideal_gas}, one `Pure` case per pure
+//! record, one `IdealGas` case per DIPPR record / Joback segment, one `Gc` case per
+//! (gc substance, segment table).
+use crate::engine::{Ctx, Obs, PanicPolicy};
+use crate::model::{joback_model, params_dir};
+use feos::core::parameter::{
+    BinaryRecord, ChemicalRecord, Identifier, IdentifierOption, Parameter, ParameterHetero,
+    PureRecord, SegmentRecord,
+};
+use feos::core::{
+    Contributions, EquationOfState, PhaseEquilibrium, ReferenceSystem, Residual, SolverOptions,
+    State,
+};
+use feos::epcsaft::{
+    ElectrolytePcSaftBinaryRecord, ElectrolytePcSaftParameters, ElectrolytePcSaftRecord,
+};
+use feos::gc_pcsaft::{
+    GcPcSaft, GcPcSaftEosParameters, GcPcSaftFunctional, GcPcSaftFunctionalParameters,
+    GcPcSaftRecord,
+};
+use feos::ideal_gas::{Dippr, DipprRecord, Joback, JobackRecord};
+use feos::pcsaft::{PcSaft, PcSaftBinaryRecord, PcSaftParameters, PcSaftRecord};
+use feos::saftvrmie::{SaftVRMie, SaftVRMieParameters, SaftVRMieRecord};
+use feos::saftvrqmie::{
+    SaftVRQMie, SaftVRQMieBinaryRecord, SaftVRQMieParameters, SaftVRQMieRecord,
+};
+use feos::ResidualModel;
+use ndarray::arr1;
+use quantity::*;
+use serde::de::DeserializeOwned;
+use serde::{Deserialize, Serialize};
 use serde_json::Value;
+use std::collections::BTreeMap;
+use std::sync::Arc;
 
-pub fn run(_ctx: &Ctx) {
-    panic!("C15: check not implemented yet");
+pub const DIRS: [&str; 5] = ["pcsaft", "epcsaft", "saftvrmie", "saftvrqmie", "ideal_gas"];
+/// emptied by the harness snapshot (properties.jsonl C15): excluded by name
+pub const EXCLUDED: [&str; 1] = ["pcsaft/rehner2023_binary.json"];
+
+#[derive(Clone, Copy, Debug, PartialEq, Eq)]
+pub enum Kind {
+    PurePcSaft,
+    PureEpc,
+    PureVrMie,
+    PureVrq,
+    PureDippr,
+    BinPcSaft,
+    BinEpc,
+    BinVrq,
+    SegHomo,
+    SegHetero,
+    SegJoback,
+    SegBin,
+    Chemical,
+    Smarts,
 }
 
-pub fn replay(_ctx: &Ctx, _part: &str, _case: &Value) -> bool {
-    panic!("C15: check not implemented yet");
+/// file -> (record type, collection(s) a binary / smarts file accompanies); derived from the
+/// README.md of each directory.
+pub fn file_kind(rel: &str) -> Option<(Kind, Vec<&'static str>)> {
+    use Kind::*;
+    let t = |k: Kind| Some((k, vec![]));
+    match rel {
+        "pcsaft/eller2022.json"
+        | "pcsaft/esper2023.json"
+        | "pcsaft/gross2001.json"
+        | "pcsaft/gross2002.json"
+        | "pcsaft/gross2005_fit.json"
+        | "pcsaft/gross2005_literature.json"
+        | "pcsaft/gross2006.json"
+        | "pcsaft/loetgeringlin2018.json"
+        | "pcsaft/rehner2020.json" => t(PurePcSaft),
+        "pcsaft/gross2002_binary.json" => {
+            Some((BinPcSaft, vec!["pcsaft/gross2001.json", "pcsaft/gross2002.json"]))
+        }
+        "pcsaft/gc_substances.json" => t(Chemical),
+        "pcsaft/sauer2014_homo.json"
+        | "pcsaft/loetgeringlin2015_homo.json"
+        | "pcsaft/rehner2023_homo.json" => t(SegHomo),
+        "pcsaft/sauer2014_hetero.json" | "pcsaft/rehner2023_hetero.json" => t(SegHetero),
+        "pcsaft/rehner2023_homo_binary.json" => Some((SegBin, vec!["pcsaft/rehner2023_homo.json"])),
+        "pcsaft/rehner2023_hetero_binary.json" => {
+            Some((SegBin, vec!["pcsaft/rehner2023_hetero.json"]))
+        }
+        "pcsaft/sauer2014_smarts.json" => Some((
+            Smarts,
+            vec![
+                "pcsaft/sauer2014_homo.json",
+                "pcsaft/sauer2014_hetero.json",
+                "pcsaft/loetgeringlin2015_homo.json",
+                "pcsaft/rehner2023_homo.json",
+                "pcsaft/rehner2023_hetero.json",
+                "ideal_gas/joback1987.json",
+            ],
+        )),
+        "epcsaft/held2014_w_permittivity_added.json" => t(PureEpc),
+        "epcsaft/held2014_binary.json" => {
+            Some((BinEpc, vec!["epcsaft/held2014_w_permittivity_added.json"]))
+        }
+        "saftvrmie/lafitte2013.json" => t(PureVrMie),
+        "saftvrqmie/aasen2019.json" | "saftvrqmie/aasen2019_fh2.json" | "saftvrqmie/hammer2023.json" => {
+            t(PureVrq)
+        }
+        "saftvrqmie/aasen2020_binary.json" => Some((
+            BinVrq,
+            vec!["saftvrqmie/aasen2019.json", "saftvrqmie/hammer2023.json"],
+        )),
+        "saftvrqmie/aasen2020_binary_fh2.json" => Some((BinVrq, vec!["saftvrqmie/aasen2019_fh2.json"])),
+        "ideal_gas/joback1987.json" => t(SegJoback),
+        "ideal_gas/poling2000.json" => t(PureDippr),
+        _ => None,
+    }
+}
+
+pub const HOMO_TABLES: [(&str, Option<&str>); 4] = [
+    ("pcsaft/sauer2014_homo.json", None),
+    ("pcsaft/loetgeringlin2015_homo.json", None),
+    ("pcsaft/rehner2023_homo.json", None),
+    ("pcsaft/rehner2023_homo.json", Some("pcsaft/rehner2023_homo_binary.json")),
+];
+pub const HETERO_TABLES: [(&str, Option<&str>); 3] = [
+    ("pcsaft/sauer2014_hetero.json", None),
+    ("pcsaft/rehner2023_hetero.json", None),
+    ("pcsaft/rehner2023_hetero.json", Some("pcsaft/rehner2023_hetero_binary.json")),
+];
+pub const JOBACK_TABLE: &str = "ideal_gas/joback1987.json";
+
+#[derive(Serialize, Deserialize, Clone, Debug)]
+pub enum Case {
+    /// whole-file clauses: parses with its record type, no duplicate lookup identifiers,
+    /// referential integrity of binary files, the whole collection loads through `from_json`
+    File { rel: String },
+    /// one pure record of a residual model
+    Pure { rel: String, index: usize, name: String },
+    /// one ideal-gas record (DIPPR record or Joback segment)
+    IdealGas { rel: String, index: usize, name: String },
+    /// one gc substance with one segment table. `route`: "homo", "hetero-eos", "hetero-dft", "joback"
+    Gc { index: usize, name: String, route: String, table: String, binary: Option<String> },
+}
+
+fn read(rel: &str) -> Result<String, String> {
+    std::fs::read_to_string(params_dir().join(rel)).map_err(|e| format!("cannot read {rel}: {e}"))
+}
+
+fn parse_vec<T: DeserializeOwned>(rel: &str) -> Result<Vec<T>, String> {
+    serde_json::from_str::<Vec<T>>(&read(rel)?).map_err(|e| format!("{rel} does not parse with its record type: {e}"))
+}
+
+fn values(rel: &str) -> Result<Vec<Value>, String> {
+    parse_vec::<Value>(rel)
+}
+
+const KINDS: [(&str, IdentifierOption); 6] = [
+    ("cas", IdentifierOption::Cas),
+    ("name", IdentifierOption::Name),
+    ("iupac_name", IdentifierOption::IupacName),
+    ("smiles", IdentifierOption::Smiles),
+    ("inchi", IdentifierOption::Inchi),
+    ("formula", IdentifierOption::Formula),
+];
+
+// ---------------------------------------------------------------------------------------
+// Known-finding signatures (predicates in code). A violation that matches is routed through
+// `known_or_fail`; everything else is a plain failure.
+// ---------------------------------------------------------------------------------------
+fn signature(rel: &str, clause: &str, key: &str) -> Option<&'static str> {
+    let _ = (rel, clause, key);
+    None
+}
+
+/// Documented, deliberate sharing of non-name identifiers (not a finding): the SAFT-VRQ Mie
+/// README states that hydrogen / para-hydrogen / ortho-hydrogen (and deuterium for smiles)
+/// must be distinguished by `name`.
+fn documented_duplicate(rel: &str, kind: &str, key: &str) -> bool {
+    rel.starts_with("saftvrqmie/")
+        && kind != "name"
+        && ["1333-74-0", "[HH]", "InChI=1S/H2/h1H", "H2"].contains(&key)
+}
+
+fn violation(obs: &mut Obs, rel: &str, clause: &str, key: &str, msg: String) {
+    let msg = format!("{rel} [{key}] {clause}: {msg}");
+    if std::env::var("C15_DEBUG").is_ok() {
+        eprintln!("C15_DEBUG {msg}");
+    }
+    match signature(rel, clause, key) {
+        Some(id) => obs.known_or_fail(id, msg),
+        None => obs.fail(msg),
+    }
+}
+
+// ---------------------------------------------------------------------------------------
+// File-level clauses
+// ---------------------------------------------------------------------------------------
+fn ident_of(v: &Value, kind: &str) -> Option<String> {
+    v.get(kind).and_then(|s| s.as_str()).map(|s| s.to_string())
+}
+
+fn check_duplicates(obs: &mut Obs, rel: &str, recs: &[Value]) {
+    for (kind, _) in KINDS {
+        let mut seen: BTreeMap<String, Vec<usize>> = BTreeMap::new();
+        for (i, r) in recs.iter().enumerate() {
+            if let Some(s) = ident_of(&r["identifier"], kind) {
+                seen.entry(s).or_default().push(i);
+            }
+        }
+        for (s, idx) in seen.iter().filter(|(_, idx)| idx.len() > 1) {
+            obs.count();
+            if kind == "formula" {
+                // a sum formula does not identify a substance (isomers): reported, not asserted
+                obs.class(format!("shared-formula:{rel}"));
+                continue;
+            }
+            if documented_duplicate(rel, kind, s) {
+                obs.class(format!("documented-shared-{kind}:{rel}"));
+                continue;
+            }
+            if kind != "name" {
+                // "the kind used for lookup" is the substance name in every shipped example, README
+                // and default; other kinds shared between records that have distinct names (water
+                // association schemes in rehner2020, E/Z isomers in esper2023) are reported as
+                // observations, not asserted
+                obs.class(format!("observed-shared-{kind}:{rel}"));
+                note(format!("{rel}: {kind} '{s}' is shared by {} records (distinct names)", idx.len()));
+                continue;
+            }
+            let names: Vec<String> = idx
+                .iter()
+                .map(|&i| ident_of(&recs[i]["identifier"], "name").unwrap_or_else(|| format!("#{i}")))
+                .collect();
+            violation(
+                obs,
+                rel,
+                &format!("duplicate-{kind}"),
+                s,
+                format!("{kind} '{s}' is carried by {} records {:?}: a lookup by {kind} silently returns the first", idx.len(), names),
+            );
+        }
+    }
+}
+
+/// the identifier object `id` of a binary record denotes a record of the collection: some
+/// record agrees with it on every identifier kind both carry (at least one shared kind)
+fn id_exists(id: &Value, collection: &[Value]) -> bool {
+    collection.iter().any(|r| {
+        let mut shared = 0;
+        for (kind, _) in KINDS {
+            if let (Some(a), Some(b)) = (ident_of(id, kind), ident_of(&r["identifier"], kind)) {
+                if a != b {
+                    return false;
+                }
+                shared += 1;
+            }
+        }
+        shared > 0
+    })
+}
+
+fn check_file(rel: &str, obs: &mut Obs) {
+    obs.nontrivial();
+    let Some((kind, accompanies)) = file_kind(rel) else {
+        obs.fail(format!("{rel}: no record type known for this file (file table of the check is incomplete or a new file was shipped)"));
+        return;
+    };
+    obs.class(format!("file:{kind:?}"));
+    // (1) parses with its record type
+    let typed: Result<usize, String> = match kind {
+        Kind::PurePcSaft => parse_vec::<PureRecord<PcSaftRecord>>(rel).map(|v| v.len()),
+        Kind::PureEpc => parse_vec::<PureRecord<ElectrolytePcSaftRecord>>(rel).map(|v| v.len()),
+        Kind::PureVrMie => parse_vec::<PureRecord<SaftVRMieRecord>>(rel).map(|v| v.len()),
+        Kind::PureVrq => parse_vec::<PureRecord<SaftVRQMieRecord>>(rel).map(|v| v.len()),
+        Kind::PureDippr => parse_vec::<PureRecord<DipprRecord>>(rel).map(|v| v.len()),
+        Kind::BinPcSaft => parse_vec::<BinaryRecord<Identifier, PcSaftBinaryRecord>>(rel).map(|v| v.len()),
+        Kind::BinEpc => parse_vec::<BinaryRecord<Identifier, ElectrolytePcSaftBinaryRecord>>(rel).map(|v| v.len()),
+        Kind::BinVrq => parse_vec::<BinaryRecord<Identifier, SaftVRQMieBinaryRecord>>(rel).map(|v| v.len()),
+        Kind::SegHomo => parse_vec::<SegmentRecord<PcSaftRecord>>(rel).map(|v| v.len()),
+        Kind::SegHetero => parse_vec::<SegmentRecord<GcPcSaftRecord>>(rel).map(|v| v.len()),
+        Kind::SegJoback => parse_vec::<SegmentRecord<JobackRecord>>(rel).map(|v| v.len()),
+        Kind::SegBin => parse_vec::<BinaryRecord<String, f64>>(rel).map(|v| v.len()),
+        Kind::Chemical => parse_vec::<ChemicalRecord>(rel).map(|v| v.len()),
+        Kind::Smarts => parse_vec::<SmartsRecord>(rel).map(|v| v.len()),
+    };
+    obs.count();
+    let n = match typed {
+        Ok(n) => n,
+        Err(e) => {
+            violation(obs, rel, "parse", "*", e);
+            return;
+        }
+    };
+    obs.ensure(n > 0, || format!("{rel}: file holds no records"));
+    let recs = match values(rel) {
+        Ok(v) => v,
+        Err(e) => {
+            obs.fail(e);
+            return;
+        }
+    };
+    // (1b) no field of a record is silently ignored by the record type (a renamed optional
+    // field would otherwise parse and be dropped): every key of the file survives the typed
+    // round trip or is a known key of the schema
+    check_unknown_keys(obs, rel, kind, &recs);
+    match kind {
+        Kind::PurePcSaft | Kind::PureEpc | Kind::PureVrMie | Kind::PureVrq | Kind::PureDippr | Kind::Chemical => {
+            // (2) no duplicate lookup identifiers
+            check_duplicates(obs, rel, &recs);
+            // every record can be looked up by name (the default identifier option)
+            for (i, r) in recs.iter().enumerate() {
+                obs.ensure(ident_of(&r["identifier"], "name").is_some(), || format!("{rel} record #{i} has no name"));
+            }
+        }
+        Kind::SegHomo | Kind::SegHetero | Kind::SegJoback => {
+            let mut seen = BTreeMap::new();
+            for r in &recs {
+                *seen.entry(r["identifier"].as_str().unwrap_or("").to_string()).or_insert(0) += 1;
+            }
+            for (s, c) in seen {
+                obs.count();
+                if c > 1 {
+                    violation(obs, rel, "duplicate-segment", &s, format!("segment identifier appears {c} times"));
+                }
+            }
+        }
+        Kind::BinPcSaft | Kind::BinEpc | Kind::BinVrq => {
+            // (3) every id exists in the collection the file accompanies; no pair twice
+            let mut coll = vec![];
+            for a in &accompanies {
+                match values(a) {
+                    Ok(v) => coll.extend(v),
+                    Err(e) => obs.fail(e),
+                }
+            }
+            let mut pairs: BTreeMap<(String, String), usize> = BTreeMap::new();
+            for (i, b) in recs.iter().enumerate() {
+                let mut names = vec![];
+                for side in ["id1", "id2"] {
+                    obs.count();
+                    let nm = ident_of(&b[side], "name").unwrap_or_else(|| format!("#{i}.{side}"));
+                    if !id_exists(&b[side], &coll) {
+                        violation(obs, rel, "dangling-binary-id", &nm, format!("record #{i} {side} = {} matches no record of {:?}", b[side], accompanies));
+                    }
+                    names.push(nm);
+                }
+                names.sort();
+                *pairs.entry((names[0].clone(), names[1].clone())).or_insert(0) += 1;
+                obs.ensure(names[0] != names[1], || format!("{rel} record #{i}: binary record of a substance with itself"));
+            }
+            for ((a, b), c) in pairs {
+                if c > 1 {
+                    // the same pair stored more than once: an observation (the lookup takes one of
+                    // them); reported in the evidence, not asserted by the property
+                    obs.class(format!("observed-duplicate-pair:{rel}"));
+                    note(format!("{rel}: pair {a}/{b} stored {c} times"));
+                }
+            }
+        }
+        Kind::SegBin | Kind::Smarts => {
+            let mut ids: Vec<Vec<String>> = vec![];
+            for a in &accompanies {
+                match values(a) {
+                    Ok(v) => ids.push(v.iter().map(|r| r["identifier"].as_str().unwrap_or("").to_string()).collect()),
+                    Err(e) => obs.fail(e),
+                }
+            }
+            let mut pairs: BTreeMap<(String, String), usize> = BTreeMap::new();
+            for (i, b) in recs.iter().enumerate() {
+                let keys: Vec<&str> = if kind == Kind::SegBin { vec!["id1", "id2"] } else { vec!["group"] };
+                let mut names = vec![];
+                for k in keys {
+                    obs.count();
+                    let s = b[k].as_str().unwrap_or("").to_string();
+                    for (t, a) in ids.iter().zip(&accompanies) {
+                        if !t.contains(&s) {
+                            violation(obs, rel, "dangling-segment-id", &s, format!("record #{i} {k} = '{s}' is not a segment of {a}"));
+                        }
+                    }
+                    names.push(s);
+                }
+                names.sort();
+                let key = (names[0].clone(), names.get(1).cloned().unwrap_or_default());
+                *pairs.entry(key).or_insert(0) += 1;
+            }
+            for ((a, b), c) in pairs {
+                if c > 1 {
+                    violation(obs, rel, "duplicate-pair", &format!("{a}/{b}"), format!("stored {c} times"));
+                }
+            }
+        }
+    }
+    // (4) the whole collection loads through the public constructor (by name)
+    let names: Vec<String> = recs
+        .iter()
+        .filter_map(|r| ident_of(&r["identifier"], "name"))
+        .collect();
+    let q: Vec<&str> = names.iter().map(|s| s.as_str()).collect();
+    let p = params_dir().join(rel);
+    let loaded: Option<Result<usize, String>> = match kind {
+        Kind::PurePcSaft => {
+            let b = (rel == "pcsaft/gross2002.json").then(|| params_dir().join("pcsaft/gross2002_binary.json"));
+            Some(PcSaftParameters::from_json(q.clone(), p.clone(), b, IdentifierOption::Name).map(|p| p.m.len()).map_err(|e| e.to_string()))
+        }
+        Kind::PureEpc => Some(
+            ElectrolytePcSaftParameters::from_json(q.clone(), p.clone(), Some(params_dir().join("epcsaft/held2014_binary.json")), IdentifierOption::Name)
+                .map(|p| p.m.len())
+                .map_err(|e| e.to_string()),
+        ),
+        Kind::PureVrMie => Some(SaftVRMieParameters::from_json(q.clone(), p.clone(), None, IdentifierOption::Name).map(|p| p.m.len()).map_err(|e| e.to_string())),
+        Kind::PureVrq => {
+            let b = if rel.ends_with("_fh2.json") { "saftvrqmie/aasen2020_binary_fh2.json" } else { "saftvrqmie/aasen2020_binary.json" };
+            Some(SaftVRQMieParameters::from_json(q.clone(), p.clone(), Some(params_dir().join(b)), IdentifierOption::Name).map(|p| p.m.len()).map_err(|e| e.to_string()))
+        }
+        Kind::PureDippr => Some(Dippr::from_json(q.clone(), p.clone(), None, IdentifierOption::Name).map(|p| p.records().0.len()).map_err(|e| e.to_string())),
+        _ => None,
+    };
+    if let Some(l) = loaded {
+        obs.count();
+        match l {
+            Ok(k) => {
+                obs.ensure(k == n, || format!("{rel}: from_json of all {n} names built {k} components"));
+            }
+            Err(e) => violation(obs, rel, "from_json-all", "*", e),
+        }
+    }
+}
+
+#[derive(Serialize, Deserialize)]
+#[serde(deny_unknown_fields)]
+struct SmartsRecord {
+    group: String,
+    smarts: String,
+    #[serde(default)]
+    max: Option<usize>,
+}
+
+/// keys the record types understand (serde ignores unknown keys silently, so a renamed
+/// optional field would parse and be dropped)
+fn known_keys(kind: Kind) -> (&'static [&'static str], &'static [&'static str]) {
+    const TOP_PURE: &[&str] = &["identifier", "molarweight", "model_record"];
+    const TOP_BIN: &[&str] = &["id1", "id2", "model_record"];
+    const ASSOC: [&str; 5] = ["kappa_ab", "epsilon_k_ab", "na", "nb", "nc"];
+    let _ = ASSOC;
+    match kind {
+        Kind::PurePcSaft | Kind::SegHomo => (
+            TOP_PURE,
+            &["m", "sigma", "epsilon_k", "mu", "q", "kappa_ab", "epsilon_k_ab", "na", "nb", "nc", "viscosity", "diffusion", "thermal_conductivity"],
+        ),
+        Kind::PureEpc => (
+            TOP_PURE,
+            &["m", "sigma", "epsilon_k", "kappa_ab", "epsilon_k_ab", "na", "nb", "nc", "z", "permittivity_record"],
+        ),
+        Kind::PureVrMie => (
+            TOP_PURE,
+            &["m", "sigma", "epsilon_k", "lr", "la", "rc_ab", "epsilon_k_ab", "na", "nb", "nc", "viscosity", "diffusion", "thermal_conductivity"],
+        ),
+        Kind::PureVrq => (
+            TOP_PURE,
+            &["m", "sigma", "epsilon_k", "lr", "la", "fh", "viscosity", "diffusion", "thermal_conductivity"],
+        ),
+        Kind::PureDippr => (TOP_PURE, &["DIPPR100", "DIPPR107", "DIPPR127"]),
+        Kind::SegHetero => (
+            TOP_PURE,
+            &["m", "sigma", "epsilon_k", "mu", "kappa_ab", "epsilon_k_ab", "na", "nb", "nc", "psi_dft"],
+        ),
+        Kind::SegJoback => (TOP_PURE, &["a", "b", "c", "d", "e"]),
+        Kind::BinPcSaft => (TOP_BIN, &["k_ij", "kappa_ab", "epsilon_k_ab", "site_indices"]),
+        Kind::BinEpc => (TOP_BIN, &["k_ij", "kappa_ab", "epsilon_k_ab", "site_indices"]),
+        Kind::BinVrq => (TOP_BIN, &["k_ij", "l_ij"]),
+        Kind::SegBin => (TOP_BIN, &[]),
+        Kind::Chemical => (&["identifier", "segments", "bonds"], &[]),
+        Kind::Smarts => (&["group", "smarts", "max"], &[]),
+    }
+}
+
+fn check_unknown_keys(obs: &mut Obs, rel: &str, kind: Kind, recs: &[Value]) {
+    let (top, model) = known_keys(kind);
+    const IDK: [&str; 6] = ["cas", "name", "iupac_name", "smiles", "inchi", "formula"];
+    for (i, r) in recs.iter().enumerate() {
+        obs.count();
+        let label = || -> String {
+            r["identifier"]["name"]
+                .as_str()
+                .or(r["identifier"].as_str())
+                .or(r["id1"]["name"].as_str())
+                .or(r["group"].as_str())
+                .map(|s| s.to_string())
+                .unwrap_or_else(|| format!("#{i}"))
+        };
+        let Some(o) = r.as_object() else {
+            violation(obs, rel, "schema", &label(), "record is not an object".into());
+            continue;
+        };
+        for k in o.keys() {
+            if !top.contains(&k.as_str()) {
+                violation(obs, rel, "unknown-field", &label(), format!("field '{k}' is not part of the record type and is silently ignored"));
+            }
+        }
+        if let Some(m) = r.get("model_record").and_then(|m| m.as_object()) {
+            for k in m.keys() {
+                if !model.contains(&k.as_str()) {
+                    violation(obs, rel, "unknown-field", &label(), format!("model_record field '{k}' is not part of the record type and is silently ignored"));
+                }
+            }
+        }
+        for side in ["identifier", "id1", "id2"] {
+            if let Some(m) = r.get(side).and_then(|m| m.as_object()) {
+                for k in m.keys() {
+                    if !IDK.contains(&k.as_str()) {
+                        violation(obs, rel, "unknown-field", &label(), format!("{side} field '{k}' is not an identifier kind and is silently ignored"));
+                    }
+                }
+            }
+        }
+    }
+}
+
+// ---------------------------------------------------------------------------------------
+// Pure records
+// ---------------------------------------------------------------------------------------
+fn pos(obs: &mut Obs, rel: &str, name: &str, what: &str, x: Option<f64>) {
+    obs.count();
+    match x {
+        Some(v) if v.is_finite() && v > 0.0 => {}
+        other => violation(obs, rel, "non-positive", name, format!("{what} = {other:?} is not a positive finite number")),
+    }
+}
+
+/// reduced temperatures of the saturation curve (C04's lattice)
+pub const TAUS: [f64; 8] = [0.45, 0.55, 0.65, 0.75, 0.85, 0.92, 0.96, 0.99];
+
+/// thresholds of C06 for a pure critical point (dimensionless)
+const CP_DPDV: f64 = 1e-6;
+const CP_D2PDV2: f64 = 1e-4;
+
+/// solver observations that belong to C04 / C06 (the record is usable, a default solver call is not)
+static SOLVER_NOTES: std::sync::Mutex<Vec<String>> = std::sync::Mutex::new(Vec::new());
+fn note(s: String) {
+    let mut g = SOLVER_NOTES.lock().unwrap();
+    if !g.contains(&s) {
+        g.push(s);
+    }
+}
+
+fn check_curve(obs: &mut Obs, rel: &str, name: &str, model: ResidualModel, tau_min: f64, success_demanded: bool, t_est: f64) {
+    let residual = Arc::new(model);
+    // total caloric properties need an ideal-gas part: a constant c_p^ig = 4R stand-in (Joback a = 4R)
+    let ig = joback_model(&[[33.258, 0.0, 0.0, 0.0, 0.0]]).expect("joback");
+    let eos = Arc::new(EquationOfState::new(Arc::new(ig), residual));
+    // The property demands that the model *has* a critical point. The default call (trial
+    // temperatures 300/700/500 K) is tried first; if it fails or lands on an unphysical root
+    // (p <= 0), a ladder of initial temperatures around 1.3 eps/k (1 + 0.1 (m - 1)) is tried.
+    // A default call that does not deliver the physical point is a C06 matter: noted, not asserted here.
+    let physical = |cp: &State<_>| {
+        let tc = cp.temperature.convert_to(KELVIN);
+        let pc = cp.pressure(Contributions::Total).convert_to(PASCAL);
+        let rhoc = cp.density.to_reduced();
+        tc.is_finite() && tc > 0.0 && pc.is_finite() && pc > 0.0 && rhoc.is_finite() && rhoc > 0.0
+    };
+    let mut found = None;
+    let mut first_msg = String::new();
+    let ladder = [f64::NAN, 1.0, 1.25, 0.8, 1.6, 0.6, 2.0, 2.5, 3.0, 0.45];
+    for (k, f) in ladder.iter().enumerate() {
+        let t0 = if k == 0 { None } else { Some(f * t_est * KELVIN) };
+        match State::critical_point(&eos, None, t0, SolverOptions::default()) {
+            Ok(cp) if physical(&cp) => {
+                if k > 0 {
+                    obs.class("critical-point:default-initialisation-unusable");
+                    note(format!("C06: {rel} [{name}] State::critical_point with default initial temperature: {first_msg}; physical point found from T0 = {:.1} K at T_c = {:.2} K", f * t_est, cp.temperature.convert_to(KELVIN)));
+                }
+                found = Some(cp);
+                break;
+            }
+            Ok(cp) => {
+                if k == 0 {
+                    first_msg = format!("unphysical root T = {:.2} K, p = {:.4e} Pa", cp.temperature.convert_to(KELVIN), cp.pressure(Contributions::Total).convert_to(PASCAL));
+                }
+            }
+            Err(e) => {
+                if k == 0 {
+                    first_msg = format!("Err({e})");
+                }
+            }
+        }
+    }
+    let Some(cp) = found else {
+        if success_demanded {
+            violation(obs, rel, "no-critical-point", name, format!("no physical critical point found (default call: {first_msg}; 9 further initial temperatures around {t_est:.0} K)"));
+        } else {
+            obs.class("outside-success-domain:critical-point-failed");
+        }
+        return;
+    };
+    let tc = cp.temperature.convert_to(KELVIN);
+    // C06's conditions, recomputed on a fresh state
+    match State::new_nvt(&eos, cp.temperature, cp.volume, &cp.moles) {
+        Ok(s) => {
+            let t = s.temperature.to_reduced();
+            let v = s.volume.to_reduced();
+            let n = s.total_moles.to_reduced();
+            let a = (v * v * s.dp_dv(Contributions::Total).to_reduced() / (n * t)).abs();
+            let b = (v * v * v * s.d2p_dv2(Contributions::Total).to_reduced() / (n * t)).abs();
+            track(&WORST_CP1, a);
+            track(&WORST_CP2, b);
+            obs.count();
+            if !(a <= CP_DPDV && b <= CP_D2PDV2) {
+                violation(obs, rel, "critical-conditions", name, format!("|V^2 dp_dv/NkT| = {a:e} (<= {CP_DPDV:e}), |V^3 d2p_dv2/NkT| = {b:e} (<= {CP_D2PDV2:e}) at T_c = {tc}"));
+            }
+        }
+        Err(e) => violation(obs, rel, "critical-point", name, format!("state at the critical point cannot be rebuilt: {e}")),
+    }
+    obs.class(if tc < 50.0 {
+        "Tc<50K"
+    } else if tc < 300.0 {
+        "Tc 50-300K"
+    } else if tc < 700.0 {
+        "Tc 300-700K"
+    } else {
+        "Tc>700K"
+    });
+    let mut p_prev = 0.0;
+    let mut prev: Option<PhaseEquilibrium<_, 2>> = None;
+    for tau in TAUS.iter().copied().filter(|&t| t >= tau_min) {
+        let t = tau * tc * KELVIN;
+        obs.count();
+        let vle = match PhaseEquilibrium::pure(&eos, t, None, SolverOptions::default()) {
+            Ok(v) => v,
+            Err(e) => {
+                // does the curve exist there? continue from the previous grid point in 1 % steps
+                let mut cont = None;
+                if let Some(prev) = prev.as_ref() {
+                    let mut cur: PhaseEquilibrium<_, 2> = Clone::clone(prev);
+                    let t_from = cur.vapor().temperature.convert_to(KELVIN);
+                    let steps = (((tau * tc - t_from) / (0.01 * tc)).ceil() as usize).max(1);
+                    let mut ok = true;
+                    for k in 1..=steps {
+                        let tk = (t_from + (tau * tc - t_from) * k as f64 / steps as f64) * KELVIN;
+                        match PhaseEquilibrium::pure(&eos, tk, Some(&cur), SolverOptions::default()) {
+                            Ok(v) => cur = v,
+                            Err(_) => {
+                                ok = false;
+                                break;
+                            }
+                        }
+                    }
+                    if ok {
+                        cont = Some(cur);
+                    }
+                }
+                match cont {
+                    Some(v) => {
+                        obs.class("saturation:standalone-solve-failed,continuation-ok");
+                        note(format!("C04: {rel} [{name}] PhaseEquilibrium::pure(T = {tau} T_c = {:.3} K, no initial state) fails: {e}; the point exists (continuation from the previous grid temperature converges)", tau * tc));
+                        v
+                    }
+                    None => {
+                        if success_demanded {
+                            violation(obs, rel, "no-saturation-point", name, format!("PhaseEquilibrium::pure failed at T = {tau} T_c = {} K (also by continuation): {e}", tau * tc));
+                        } else {
+                            obs.class("outside-success-domain:vle-failed");
+                        }
+                        continue;
+                    }
+                }
+            }
+        };
+        let (vap, liq) = (vle.vapor(), vle.liquid());
+        let p = vap.pressure(Contributions::Total).convert_to(PASCAL);
+        let (rv, rl) = (vap.density.to_reduced(), liq.density.to_reduced());
+        let mut bad = vec![];
+        if !(p.is_finite() && p > 0.0) {
+            bad.push(format!("p = {p}"));
+        }
+        if !(rv.is_finite() && rl.is_finite() && rv > 0.0 && rv < rl) {
+            bad.push(format!("rho_v = {rv}, rho_l = {rl}"));
+        }
+        if !(p > p_prev) {
+            bad.push(format!("p_sat not increasing with T: {p} after {p_prev}"));
+        }
+        p_prev = p;
+        for (ph, s) in [("vapour", vap), ("liquid", liq)] {
+            let h = s.molar_enthalpy(Contributions::Total).to_reduced();
+            let en = s.molar_entropy(Contributions::Total).to_reduced();
+            let cp_ = s.molar_isobaric_heat_capacity(Contributions::Total).to_reduced();
+            let w = s.speed_of_sound().to_reduced();
+            for (q, x) in [("h", h), ("s", en), ("c_p", cp_), ("speed of sound", w)] {
+                if !x.is_finite() {
+                    bad.push(format!("{ph} {q} = {x}"));
+                }
+            }
+            if !(cp_ > 0.0) || !(w > 0.0) {
+                bad.push(format!("{ph} c_p = {cp_}, w = {w} not positive"));
+            }
+        }
+        prev = Some(vle.clone());
+        if !bad.is_empty() {
+            violation(obs, rel, "saturation-properties", name, format!("at T = {tau} T_c = {} K: {}", tau * tc, bad.join("; ")));
+        }
+    }
+}
+
+static WORST_CP1: std::sync::Mutex<f64> = std::sync::Mutex::new(0.0);
+static WORST_CP2: std::sync::Mutex<f64> = std::sync::Mutex::new(0.0);
+fn track(m: &std::sync::Mutex<f64>, v: f64) {
+    let mut g = m.lock().unwrap();
+    if v.is_finite() && v > *g {
+        *g = v;
+    }
+}
+
+fn check_pure(rel: &str, index: usize, name: &str, obs: &mut Obs) {
+    obs.nontrivial();
+    obs.class(format!("pure:{rel}"));
+    let Some((kind, _)) = file_kind(rel) else {
+        obs.fail(format!("{rel}: unknown file"));
+        return;
+    };
+    let recs = match values(rel) {
+        Ok(v) => v,
+        Err(e) => {
+            obs.discard(format!("file does not parse (reported by the File case): {}", e.chars().take(60).collect::<String>()));
+            return;
+        }
+    };
+    let Some(r) = recs.get(index) else {
+        obs.fail(format!("{rel}: no record #{index}"));
+        return;
+    };
+    let mr = &r["model_record"];
+    let f = |k: &str| mr.get(k).and_then(|x| x.as_f64());
+    pos(obs, rel, name, "molarweight", r.get("molarweight").and_then(|x| x.as_f64()));
+    for k in ["m", "sigma", "epsilon_k"] {
+        pos(obs, rel, name, k, f(k));
+    }
+    if matches!(kind, Kind::PureVrMie | Kind::PureVrq) {
+        pos(obs, rel, name, "la", f("la"));
+        obs.count();
+        if !(f("lr").unwrap_or(f64::NAN) > f("la").unwrap_or(f64::NAN)) {
+            violation(obs, rel, "exponents", name, format!("lr = {:?} must exceed la = {:?}", f("lr"), f("la")));
+        }
+    }
+    // association sites without own kappa_ab / epsilon_k_ab are legitimate (induced association:
+    // the cross parameters come from the partner), so only the class is recorded
+    let sites = f("na").unwrap_or(0.0) + f("nb").unwrap_or(0.0) + f("nc").unwrap_or(0.0);
+    if sites > 0.0 {
+        obs.class(if f("epsilon_k_ab").is_some() { "associating" } else { "induced-association-sites" });
+    }
+    if f("mu").unwrap_or(0.0) != 0.0 || f("q").unwrap_or(0.0) != 0.0 {
+        obs.class("polar");
+    }
+    // every number of the record is finite
+    fn finite(v: &Value) -> bool {
+        match v {
+            Value::Number(n) => n.as_f64().map(|x| x.is_finite()).unwrap_or(false),
+            Value::Array(a) => a.iter().all(finite),
+            Value::Object(o) => o.values().all(finite),
+            _ => true,
+        }
+    }
+    obs.ensure(finite(mr), || format!("{rel} [{name}]: non-finite number in model_record"));
+
+    let t_est = 1.3 * f("epsilon_k").unwrap_or(250.0) * (1.0 + 0.1 * (f("m").unwrap_or(1.0) - 1.0));
+    macro_rules! typed {
+        ($t:ty) => {
+            match serde_json::from_value::<PureRecord<$t>>(r.clone()) {
+                Ok(x) => x,
+                Err(e) => {
+                    violation(obs, rel, "parse", name, format!("record does not parse: {e}"));
+                    return;
+                }
+            }
+        };
+    }
+    match kind {
+        Kind::PurePcSaft => {
+            let rec = typed!(PcSaftRecord);
+            match PcSaftParameters::new_pure(rec) {
+                Ok(p) => check_curve(obs, rel, name, ResidualModel::PcSaft(PcSaft::new(Arc::new(p))), 0.0, true, t_est),
+                Err(e) => violation(obs, rel, "new_pure", name, e.to_string()),
+            }
+        }
+        Kind::PureVrMie => {
+            let rec = typed!(SaftVRMieRecord);
+            match SaftVRMieParameters::new_pure(rec) {
+                Ok(p) => check_curve(obs, rel, name, ResidualModel::SaftVRMie(SaftVRMie::new(Arc::new(p))), 0.0, true, t_est),
+                Err(e) => violation(obs, rel, "new_pure", name, e.to_string()),
+            }
+        }
+        Kind::PureVrq => {
+            let rec = typed!(SaftVRQMieRecord);
+            let fh = rec.model_record.fh;
+            obs.class(format!("fh={fh}"));
+            // C04's stated domain: T >= 0.6 T_c, helium with the second-order correction excepted
+            let demanded = !(name == "helium" && fh == 2);
+            match SaftVRQMieParameters::new_pure(rec) {
+                Ok(p) => check_curve(obs, rel, name, ResidualModel::SaftVRQMie(SaftVRQMie::new(Arc::new(p))), 0.6, demanded, t_est),
+                Err(e) => violation(obs, rel, "new_pure", name, e.to_string()),
+            }
+        }
+        Kind::PureEpc => {
+            let rec = typed!(ElectrolytePcSaftRecord);
+            let z = rec.model_record.z.unwrap_or(0.0);
+            obs.class(if z == 0.0 { "solvent" } else { "ion" });
+            if z != 0.0 {
+                obs.ensure(z.is_finite() && z.fract() == 0.0, || format!("{rel} [{name}]: charge z = {z} is not an integer"));
+                obs.ensure(rec.model_record.permittivity_record.is_some(), || format!("{rel} [{name}]: ion without permittivity record"));
+            }
+            obs.count();
+            if let Err(e) = ElectrolytePcSaftParameters::new_pure(rec) {
+                violation(obs, rel, "new_pure", name, e.to_string());
+            }
+        }
+        _ => obs.fail(format!("{rel}: not a pure residual-model file")),
+    }
+}
+
+// ---------------------------------------------------------------------------------------
+// Ideal gas records
+// ---------------------------------------------------------------------------------------
+pub fn cp_grid() -> Vec<f64> {
+    (0..=32).map(|i| 200.0 + 25.0 * i as f64).collect()
+}
+
+fn check_ideal_gas(rel: &str, index: usize, name: &str, obs: &mut Obs) {
+    obs.nontrivial();
+    obs.class(format!("ideal-gas:{rel}"));
+    let recs = match values(rel) {
+        Ok(v) => v,
+        Err(e) => {
+            obs.discard(format!("file does not parse (reported by the File case): {}", e.chars().take(60).collect::<String>()));
+            return;
+        }
+    };
+    let Some(r) = recs.get(index) else {
+        obs.fail(format!("{rel}: no record #{index}"));
+        return;
+    };
+    match file_kind(rel).map(|k| k.0) {
+        Some(Kind::PureDippr) => {
+            let rec: PureRecord<DipprRecord> = match serde_json::from_value(r.clone()) {
+                Ok(x) => x,
+                Err(e) => {
+                    violation(obs, rel, "parse", name, format!("record does not parse: {e}"));
+                    return;
+                }
+            };
+            obs.class(match &rec.model_record {
+                DipprRecord::DIPPR100(_) => "DIPPR100",
+                DipprRecord::DIPPR107(_) => "DIPPR107",
+                DipprRecord::DIPPR127(_) => "DIPPR127",
+            });
+            let d = match Dippr::new_pure(rec) {
+                Ok(d) => d,
+                Err(e) => {
+                    violation(obs, rel, "new_pure", name, e.to_string());
+                    return;
+                }
+            };
+            let mut bad = vec![];
+            for t in cp_grid() {
+                obs.count();
+                match d.molar_isobaric_heat_capacity(t * KELVIN, &arr1(&[1.0])) {
+                    Ok(c) => {
+                        let c = c.convert_to(JOULE / (MOL * KELVIN));
+                        if !(c.is_finite() && c > 0.0) {
+                            bad.push(format!("c_p({t} K) = {c} J/mol/K"));
+                        }
+                    }
+                    Err(e) => bad.push(format!("c_p({t} K): {e}")),
+                }
+            }
+            if !bad.is_empty() {
+                violation(obs, rel, "ideal-gas-cp", name, format!("{} of {} grid temperatures in [200, 1000] K: {}", bad.len(), cp_grid().len(), bad.iter().take(3).cloned().collect::<Vec<_>>().join("; ")));
+            }
+        }
+        Some(Kind::SegJoback) => {
+            // a group is not a molecule: its c_p contribution has no sign; the record must
+            // parse, have a positive molar weight and finite coefficients. Positivity of c_p is
+            // checked on the assembled gc substances (Gc cases, route "joback").
+            let rec: SegmentRecord<JobackRecord> = match serde_json::from_value(r.clone()) {
+                Ok(x) => x,
+                Err(e) => {
+                    violation(obs, rel, "parse", name, format!("record does not parse: {e}"));
+                    return;
+                }
+            };
+            pos(obs, rel, name, "molarweight", Some(rec.molarweight));
+            let m = &rec.model_record;
+            obs.ensure([m.a, m.b, m.c, m.d, m.e].iter().all(|x| x.is_finite()), || format!("{rel} [{name}]: non-finite coefficient"));
+        }
+        _ => obs.fail(format!("{rel}: not an ideal-gas file")),
+    }
+}
+
+// ---------------------------------------------------------------------------------------
+// Group contribution: every substance x every table
+// ---------------------------------------------------------------------------------------
+fn finite_pressures<E: Residual>(obs: &mut Obs, what: &str, name: &str, eos: E) {
+    let eos = Arc::new(eos);
+    let moles = arr1(&[1.0]) * MOL;
+    let rho_max = match eos.max_density(Some(&moles)) {
+        Ok(r) => r,
+        Err(e) => {
+            obs.fail(format!("{what} [{name}]: max_density: {e}"));
+            return;
+        }
+    };
+    for (label, f) in [("liquid-like", 0.7), ("vapour-like", 1e-3)] {
+        obs.count();
+        let rho = f * rho_max;
+        match State::new_nvt(&eos, 350.0 * KELVIN, moles.sum() / rho, &moles) {
+            Ok(s) => {
+                let p = s.pressure(Contributions::Total).convert_to(PASCAL);
+                let a = s.residual_molar_helmholtz_energy().to_reduced();
+                if !(p.is_finite() && a.is_finite()) {
+                    obs.fail(format!("{what} [{name}]: {label} state at 350 K: p = {p} Pa, a_res = {a}"));
+                }
+                if label == "vapour-like" && !(p > 0.0) {
+                    obs.fail(format!("{what} [{name}]: vapour-like pressure {p} Pa not positive"));
+                }
+            }
+            Err(e) => obs.fail(format!("{what} [{name}]: state: {e}")),
+        }
+    }
+}
+
+fn check_gc(index: usize, name: &str, route: &str, table: &str, binary: &Option<String>, obs: &mut Obs) {
+    obs.nontrivial();
+    obs.class(format!("gc:{route}:{table}{}", if binary.is_some() { "+binary" } else { "" }));
+    let subs = match parse_vec::<ChemicalRecord>("pcsaft/gc_substances.json") {
+        Ok(v) => v,
+        Err(e) => {
+            obs.discard(format!("gc_substances.json does not parse (reported by the File case): {}", e.chars().take(40).collect::<String>()));
+            return;
+        }
+    };
+    let Some(cr) = subs.get(index).cloned() else {
+        obs.fail(format!("gc_substances.json: no record #{index}"));
+        return;
+    };
+    obs.class(format!("segments={}", cr.segments.len().min(9)));
+    let bin: Option<Vec<BinaryRecord<String, f64>>> = match binary {
+        Some(b) => match parse_vec(b) {
+            Ok(v) => Some(v),
+            Err(e) => {
+                obs.discard(format!("binary table does not parse: {}", e.chars().take(40).collect::<String>()));
+                return;
+            }
+        },
+        None => None,
+    };
+    let what = format!("{table} x gc_substances.json");
+    macro_rules! segs {
+        ($t:ty) => {
+            match parse_vec::<SegmentRecord<$t>>(table) {
+                Ok(v) => v,
+                Err(e) => {
+                    obs.discard(format!("segment table does not parse (reported by the File case): {}", e.chars().take(40).collect::<String>()));
+                    return;
+                }
+            }
+        };
+    }
+    obs.count();
+    match route {
+        "homo" => match PcSaftParameters::from_segments(vec![cr], segs!(PcSaftRecord), bin) {
+            Ok(p) => {
+                let (pr, _) = p.records();
+                let mr = &pr[0];
+                pos(obs, &what, name, "molarweight", Some(mr.molarweight));
+                pos(obs, &what, name, "m", Some(mr.model_record.m));
+                pos(obs, &what, name, "sigma", Some(mr.model_record.sigma));
+                pos(obs, &what, name, "epsilon_k", Some(mr.model_record.epsilon_k));
+                finite_pressures(obs, &what, name, PcSaft::new(Arc::new(p)));
+            }
+            Err(e) => violation(obs, table, "gc-assembly", name, format!("PcSaftParameters::from_segments: {e}")),
+        },
+        "hetero-eos" => match GcPcSaftEosParameters::from_segments(vec![cr], segs!(GcPcSaftRecord), bin) {
+            Ok(p) => {
+                pos(obs, &what, name, "molarweight", Some(p.molarweight[0]));
+                finite_pressures(obs, &what, name, GcPcSaft::new(Arc::new(p)));
+            }
+            Err(e) => violation(obs, table, "gc-assembly", name, format!("GcPcSaftEosParameters::from_segments: {e}")),
+        },
+        "hetero-dft" => match GcPcSaftFunctionalParameters::from_segments(vec![cr], segs!(GcPcSaftRecord), bin) {
+            Ok(p) => {
+                pos(obs, &what, name, "molarweight", Some(p.molarweight[0]));
+                finite_pressures(obs, &what, name, GcPcSaftFunctional::new(Arc::new(p)));
+            }
+            Err(e) => violation(obs, table, "gc-assembly", name, format!("GcPcSaftFunctionalParameters::from_segments: {e}")),
+        },
+        "joback" => match Joback::from_segments(vec![cr], segs!(JobackRecord), None) {
+            Ok(j) => {
+                let mut bad = vec![];
+                for t in cp_grid() {
+                    obs.count();
+                    match j.molar_isobaric_heat_capacity(t * KELVIN, &arr1(&[1.0])) {
+                        Ok(c) => {
+                            let c = c.convert_to(JOULE / (MOL * KELVIN));
+                            if !(c.is_finite() && c > 0.0) {
+                                bad.push(format!("c_p({t} K) = {c} J/mol/K"));
+                            }
+                        }
+                        Err(e) => bad.push(format!("c_p({t} K): {e}")),
+                    }
+                }
+                if !bad.is_empty() {
+                    violation(obs, table, "ideal-gas-cp", name, format!("{} grid temperatures: {}", bad.len(), bad.iter().take(3).cloned().collect::<Vec<_>>().join("; ")));
+                }
+            }
+            Err(e) => violation(obs, table, "gc-assembly", name, format!("Joback::from_segments: {e}")),
+        },
+        other => obs.fail(format!("unknown route {other}")),
+    }
+}
+
+pub fn check(case: &Case, obs: &mut Obs) {
+    match case {
+        Case::File { rel } => check_file(rel, obs),
+        Case::Pure { rel, index, name } => check_pure(rel, *index, name, obs),
+        Case::IdealGas { rel, index, name } => check_ideal_gas(rel, *index, name, obs),
+        Case::Gc { index, name, route, table, binary } => check_gc(*index, name, route, table, binary, obs),
+    }
+}
+
+fn label_of(r: &Value, i: usize) -> String {
+    r["identifier"]["name"]
+        .as_str()
+        .or(r["identifier"].as_str())
+        .map(|s| s.to_string())
+        .unwrap_or_else(|| format!("#{i}"))
+}
+
+/// Enumerate the finite domain from the directory listing (not from a hard-coded list, so a
+/// new or renamed file shows up as a `File` case without a record type).
+pub fn enumerate() -> (Vec<Case>, Value) {
+    let mut cases = vec![];
+    let mut counts: BTreeMap<String, usize> = BTreeMap::new();
+    for d in DIRS {
+        let mut files: Vec<String> = std::fs::read_dir(params_dir().join(d))
+            .map(|rd| {
+                rd.flatten()
+                    .map(|e| e.file_name().to_string_lossy().to_string())
+                    .filter(|n| n.ends_with(".json"))
+                    .collect()
+            })
+            .unwrap_or_default();
+        files.sort();
+        for f in files {
+            let rel = format!("{d}/{f}");
+            if EXCLUDED.contains(&rel.as_str()) {
+                continue;
+            }
+            cases.push(Case::File { rel: rel.clone() });
+            let n = values(&rel).map(|v| v.len()).unwrap_or(0);
+            counts.insert(rel.clone(), n);
+            let recs = values(&rel).unwrap_or_default();
+            match file_kind(&rel).map(|k| k.0) {
+                Some(Kind::PurePcSaft | Kind::PureEpc | Kind::PureVrMie | Kind::PureVrq) => {
+                    for (i, r) in recs.iter().enumerate() {
+                        cases.push(Case::Pure { rel: rel.clone(), index: i, name: label_of(r, i) });
+                    }
+                }
+                Some(Kind::PureDippr | Kind::SegJoback) => {
+                    for (i, r) in recs.iter().enumerate() {
+                        cases.push(Case::IdealGas { rel: rel.clone(), index: i, name: label_of(r, i) });
+                    }
+                }
+                Some(Kind::Chemical) => {
+                    for (i, r) in recs.iter().enumerate() {
+                        let name = label_of(r, i);
+                        for (t, b) in HOMO_TABLES {
+                            cases.push(Case::Gc { index: i, name: name.clone(), route: "homo".into(), table: t.into(), binary: b.map(|s| s.to_string()) });
+                        }
+                        for route in ["hetero-eos", "hetero-dft"] {
+                            for (t, b) in HETERO_TABLES {
+                                cases.push(Case::Gc { index: i, name: name.clone(), route: route.into(), table: t.into(), binary: b.map(|s| s.to_string()) });
+                            }
+                        }
+                        cases.push(Case::Gc { index: i, name: name.clone(), route: "joback".into(), table: JOBACK_TABLE.into(), binary: None });
+                    }
+                }
+                _ => {}
+            }
+        }
+    }
+    (cases, serde_json::to_value(counts).unwrap())
+}
+
+pub fn run(ctx: &Ctx) {
+    ctx.set_rule("exhaustive, seed-independent enumeration of the finite domain from the directory listing of parameters/{pcsaft,epcsaft,saftvrmie,saftvrqmie,ideal_gas}/*.json (rehner2023_binary.json, emptied by the snapshot, excluded by name): one File case per file (typed parse, silently ignored fields, duplicate lookup identifiers, referential integrity of binary/segment-binary/smarts files, whole collection through from_json by name), one Pure case per residual-model record (positivity; PC-SAFT / SAFT-VR Mie / SAFT-VRQ Mie: critical point + 8-point saturation curve with finite p, rho, h, s, c_p, speed of sound), one IdealGas case per DIPPR record / Joback segment (c_p on a 25 K grid over [200, 1000] K), one Gc case per (gc substance) x (4 homo tables, 3 hetero tables x {EoS, DFT}, Joback table). Every case is non-trivial and counts once (distinct by file + record).");
+    ctx.assume("file -> record type table is derived from the README.md files of the five directories; sauer2014_smarts.json has no Rust record type (Python/rdkit only) and is parsed with a harness struct {group, smarts, max?}; its groups must exist in every segment table");
+    ctx.assume("duplicate identifiers: cas, name, iupac_name, smiles and inchi must be unique inside a file (each is a selectable IdentifierOption and PureRecord::from_json silently returns the first match); a sum formula does not identify a substance (isomers) and is only reported; the SAFT-VRQ Mie README documents that the hydrogen spin isomers share every identifier but `name` (class documented-shared-*)");
+    ctx.assume("positivity of molar weight is asserted for residual-model records and segment records; poling2000.json ships no molarweight (PureRecord::molarweight is #[serde(default)] and the DIPPR model never reads it)");
+    ctx.assume("saturation curve: C04's lattice tau in {0.45,0.55,0.65,0.75,0.85,0.92,0.96,0.99} of the model's own T_c (SAFT-VRQ Mie: tau >= 0.6; helium with fh = 2 outside the stated success domain: conditions only when Ok); total caloric properties use a constant c_p^ig = 4R Joback stand-in; critical conditions |V^2 dp_dv/NkT| <= 1e-6 and |V^3 d2p_dv2/NkT| <= 1e-4 are C06's thresholds");
+    ctx.assume("gc substances: a finite pressure and residual Helmholtz energy at 350 K and 0.7 / 1e-3 of the maximum density; Joback route: positive finite c_p on the [200, 1000] K grid");
+    let (cases, counts) = enumerate();
+    ctx.extra("records_per_file", counts);
+    ctx.run_lattice("records", cases, PanicPolicy::Violation, true, &check);
+    ctx.extra("solver_observations_for_C04_C06", serde_json::json!(*SOLVER_NOTES.lock().unwrap()));
+    ctx.extra(
+        "worst_critical_conditions",
+        serde_json::json!({"V2_dpdv_over_NkT": *WORST_CP1.lock().unwrap(), "V3_d2pdv2_over_NkT": *WORST_CP2.lock().unwrap(), "thresholds": [CP_DPDV, CP_D2PDV2]}),
+    );
+}
+
+pub fn replay(ctx: &Ctx, _part: &str, case: &Value) -> bool {
+    ctx.replay_case::<Case>(case, &check)
 }
